@@ -1638,5 +1638,73 @@ class Widths(Unit):
         rec.witness("font round trip checked")
 
 
+class UnroundedPen(Unit):
+    name = "unrounded-pen-operands"
+    rule = ("T2CharStringPen(roundTolerance=0) fed every closed triangle over an 18-point set of decimal coordinates (x in 6 values, y in 3: 0.1-steps whose "
+            "differences fall just below / above integers, e.g. 2.3 - 1.3 = 0.9999999999999998, and -107.99999999), with and without a curve: the charstring is compiled, "
+            "the byte code read by the TN5177 reference interpreter and decompiled + drawn by T2CharString: every point within k * 2^-16 of the coordinate fed in "
+            "(k = its index on the path: relative 16.16 operands accumulate); distinct = each triangle")
+    chunk = 8
+    required_witnesses = ("delta just below an integer", "16.16 operand written")
+    XS = (0.1, 1.3, 2.3, 3.3, -107.99999999, 5.0)
+    YS = (0.7, 1.7, -0.3)
+
+    def cases(self, tier, seed):
+        pts = [(x, y) for x in self.XS for y in self.YS]
+        for i in range(len(pts)):
+            yield [i]
+
+    def check(self, case, rec):
+        pts = [(x, y) for x in self.XS for y in self.YS]
+        p0 = pts[case[0]]
+        n = 0
+        for p1 in pts:
+            for p2 in pts:
+                # pairwise different in x and in y: no horizontal / vertical / repeated segment for the
+                # specialiser to merge (that rewriting is judged by the other units)
+                if len({p0[0], p1[0], p2[0]}) < 3 or len({p0[1], p1[1], p2[1]}) < 3:
+                    continue
+                for curve in (False, True):
+                    n += 1
+                    pen = T2CharStringPen(500, None, roundTolerance=0)
+                    pen.moveTo(p0)
+                    pen.lineTo(p1)
+                    if curve:
+                        mid = ((p1[0] + p2[0]) / 2 + 0.1, (p1[1] + p2[1]) / 2)
+                        pen.curveTo(mid, mid, p2)
+                        fed = [p0, p1, mid, mid, p2]
+                    else:
+                        pen.lineTo(p2)
+                        fed = [p0, p1, p2]
+                    pen.closePath()
+                    cs = pen.getCharString(private=PRIV)
+                    prog = list(cs.program)
+                    for t in prog:
+                        if isinstance(t, float) and not t.is_integer() and abs(t - round(t)) < 1e-6:
+                            rec.witness("delta just below an integer")
+                    cs.compile()
+                    code = cs.bytecode
+                    if b"\xff" in code:
+                        rec.witness("16.16 operand written")
+                    rb = t2ref.run(code)
+                    w, cont = ft_draw(code)
+                    for how, contours in (("reference", rb.closed() if not rb.errors else None), ("T2CharString.draw", cont)):
+                        if contours is None:
+                            rec.violation("unrounded-pen:reference-rejects", "compiled %s rejected by the reference: %s" % (code.hex(), rb.errors[:2]))
+                            continue
+                        got = []
+                        for _c, start, segs in contours:
+                            got.append(tuple(start))
+                            for sg in segs:
+                                got += [tuple(q) for q in sg[2:]]  # (kind, from, ...to)
+                        # drop the closing point if the interpreter adds one
+                        got = got[: len(fed)]
+                        bad = [(k, f_, g_) for k, (f_, g_) in enumerate(zip(fed, got)) if abs(f_[0] - g_[0]) > (k + 1) * 2.0 ** -16 or abs(f_[1] - g_[1]) > (k + 1) * 2.0 ** -16]
+                        if len(got) < len(fed) or bad:
+                            rec.violation("unrounded-pen:points-moved:" + how.split(".")[0], "fed %r, program %s, bytes %s drawn as %r" % (fed, prog_str(prog), code.hex(), got))
+        rec.evals(n - 1)
+        rec.nontrivial_n(n)
+
+
 def units():
-    return [SpecGen(), StackRuns(), OpForms(), Blends(), FontTransforms(), SyntheticFonts(), Widths()]
+    return [SpecGen(), StackRuns(), OpForms(), Blends(), FontTransforms(), SyntheticFonts(), Widths(), UnroundedPen()]
